@@ -12,7 +12,7 @@
    integer casts.  Anything else is translated to [EUnsupported]/[SUnsupported], which evaluate to [Fault], so a
    theorem about a function that leaves the fragment can no longer be proved. *)
 From Coq Require Import NArith List String Bool Arith.
-From HW Require Import Word X86 Wasm.
+From HW Require Import Word X86 Wasm Neon.
 Import ListNotations.
 Local Open Scope N_scope.
 
@@ -45,13 +45,16 @@ Inductive expr :=
 | EFromLe (a : string) (n : nat)           (* uN::from_le_bytes([a[0], a[1], .., a[n-1]]) *)
 | EMin (a b : expr)                        (* a.min(b) *)
 | ERem (a b : expr)                        (* a % b  (panics when b = 0) *)
+| EAddS32 (a b : expr)                     (* a + b on i32 (bit patterns): panics on signed overflow when the profile checks *)
 | EVPrim (f : string) (vs : list string)   (* a scalar-valued SIMD primitive applied to vector variables (extract_lane) *)
 | EUnsupported (s : string).
 
 (* 128-bit vector expressions: a variable / field, or a SIMD primitive applied to vectors and to scalar atoms.  Calls of
    functions of the file (wrapper methods, operators, helpers) are statements; the translator names their results. *)
 Inductive sarg := SALit (n : N) | SAVar (x : string).
-Inductive vexpr := XV (x : string) | XPrim (f : string) (vs : list vexpr) (ss : list sarg).
+Inductive vexpr := XV (x : string) | XPrim (f : string) (vs : list vexpr) (ss : list sarg)
+| XLoad16 (a : string) (off : nat).   (* 16 bytes read through a raw pointer into the byte array a, at byte offset off (no alignment
+                                         requirement: vld1q_u8); reading outside the array is undefined behaviour: Fault *)
 
 Inductive place := PVar (x : string) | PIdx (a : string) (i : idx) | PIdxE (a : string) (i : expr).
 Inductive cond :=
@@ -104,6 +107,8 @@ Inductive stmt :=
 | SLetTupV (x : string) (es : list vexpr)               (* x = (v1, v2, ..) *)
 | SUntupV (xs : list string) (src : string)             (* let (a, b) = src / a tuple pattern parameter *)
 | SIfPrefix (x : string) (a : string) (n : nat) (body : list stmt)   (* if let Some(x) = a.get(..n) { body } *)
+| SStoreLanes (a : string) (e : vexpr)                  (* vst1q_u64(a.as_mut_ptr(), e): the two 64-bit lanes into the array a *)
+| SLetTake (x : string) (a : string) (n : nat)          (* x = take::<n>(a): debug_assert!(a.len() >= n), then an unchecked read of n bytes *)
 | SCallWith (dst : option string) (f : string) (args : list arg) (fmap : list (string * string))
       (* dst = T { field: x, .. }.f(args), T another translated type: the callee runs on a temporary object whose fields
          (callee names, "self.v0") are the caller's variables / fields named in fmap *)
@@ -174,6 +179,12 @@ Definition add_chk (p : profile) (t : ity) (a b : N) : res N :=
   if ovf p && (mask t <? a + b) then Panic else Ok (N.land (a + b) (mask t)).
 Definition sub_chk (p : profile) (t : ity) (a b : N) : res N :=
   if b <=? a then Ok (a - b) else if ovf p then Panic else Ok (N.land (a + (mask t + 1) - b) (mask t)).
+(* i32 addition on bit patterns: both non-negative and the sum reaches 2^31, or both negative and the sum falls below -2^31 *)
+Definition sadd32_chk (p : profile) (a b : N) : res N :=
+  let a := N.land a M32 in let b := N.land b M32 in
+  let neg x := 2147483648 <=? x in
+  let bad := (negb (neg a) && negb (neg b) && (2147483648 <=? a + b)) || (neg a && neg b && (a + b <? 6442450944)) in
+  if ovf p && bad then Panic else Ok (N.land (a + b) M32).
 Definition rotl (t : ity) (a k : N) : N := N.lor (N.land (N.shiftl a k) (mask t)) (N.shiftr a (bits t - k)).
 
 Local Open Scope string_scope.
@@ -190,13 +201,33 @@ Definition vprim (f : string) (vs : list V128) (ss : list N) : option V128 :=
            then Some (u8x16_shuffle [3; 12; 2; 5; 1; 14; 0; 15; 11; 4; 10; 13; 6; 9; 7; 8]%nat a b)
       else if is "wasm32::u32x4_shuffle::<1,0,3,2>" then Some (u32x4_shuffle 1 0 3 2 a b)
       else if is "wasm32::u64x2_shuffle::<1,2>" then Some (u64x2_shuffle 1 2 a b)
+      else if is "neon::vaddq_u64" then Some (vaddq_u64 a b) else if is "neon::vandq_u64" then Some (vandq_u64 a b)
+      else if is "neon::vorrq_u64" then Some (vorrq_u64 a b) else if is "neon::veorq_u64" then Some (veorq_u64 a b)
+      else if is "neon::vbicq_u64" then Some (vbicq_u64 a b) else if is "neon::vmull_u32" then Some (vmull_u32 a b)
+      else if is "neon::vshlq_u32" then Some (vshlq_u32 a b)
+      else if is "neon::vqtbl1q_u8" then Some (vqtbl1q_u8 (bytes_of_v128 a) (bytes_of_v128 b))
+      else None
+  | [a; b], [k] => if is "neon::vextq_u8" then (if N.eqb k 8 then Some (vextq_u8_8 a b) else None) else None
+  | [a], [] =>
+      if is "neon::vmovn_u64" then Some (vmovn_u64 a) else if is "neon::vrev64q_u32" then Some (vrev64q_u32 a)
+      else if is "neon::vreinterpretq_u8_u64" then Some a else if is "neon::vreinterpretq_u64_u8" then Some a
+      else if is "neon::vreinterpretq_u32_u64" then Some a else if is "neon::vreinterpretq_u64_u32" then Some a
+      else if is "neon::vreinterpretq_u64_s32" then Some a else if is "neon::vreinterpretq_u64_u16" then Some a
+      else None
+  | [a], [x; k] => if is "neon::vsetq_lane_u32" then (if N.eqb k 3 then Some (vsetq_lane_u32_3 x a) else None) else None
+  | [], [x] =>
+      if is "neon::vdupq_n_u64" then Some (vdupq_n_u64 x) else if is "neon::vdupq_n_u32" then Some (vdupq_n_u32 x)
+      else if is "neon::vdupq_n_s32" then Some (vdupq_n_u32 x) else if is "neon::vdupq_n_u8" then Some (of_e32 (x * 16843009) (x * 16843009) (x * 16843009) (x * 16843009))
       else None
   | [a], [k] =>
       if is "wasm32::u64x2_shr" then Some (u64x2_shr a k) else if is "wasm32::u32x4_shl" then Some (u32x4_shl a k)
       else if is "wasm32::u32x4_shr" then Some (u32x4_shr a k)
       else if is "wasm32::i32x4_replace_lane::<1>" then Some (i32x4_replace_lane_1 a k)
+      else if is "neon::vshrq_n_u64" then Some (vshrq_n_u64 a k)
+      else if is "neon::vshrn_n_u64" then (if N.eqb k 32 then Some (vshrn_n_u64_32 a) else None)
       else None
-  | [], [x; y] => if is "wasm32::u64x2" then Some (w_u64x2 x y) else None
+  | [], [x; y] => if is "wasm32::u64x2" then Some (w_u64x2 x y)
+                  else if is "neon::vld1q_u64::array" then Some (t64 x, t64 y) else None
   | [], [a0; a1; a2; a3] => if is "wasm32::u32x4" then Some (w_u32x4 a0 a1 a2 a3)
                             else if is "wasm32::i32x4" then Some (w_u32x4 a0 a1 a2 a3) else None
   | _, _ => None
@@ -224,6 +255,11 @@ Fixpoint evalv (s : state) (e : vexpr) : res V128 :=
                   match l with [] => Ok [] | a :: l' => do v <- evalv s a ;; do r <- go l' ;; Ok (v :: r) end) vs ;;
       do ns <- eval_sargs s ss ;;
       match vprim f xs ns with Some v => Ok v | None => Fault end
+  | XLoad16 a off =>
+      match get s a with
+      | Some (VA l) => if (off + 16 <=? List.length l)%nat then Ok (v128_of_bytes (sub l off 16)) else Fault
+      | _ => Fault
+      end
   end.
 Fixpoint evalv_list (s : state) (l : list vexpr) : res (list V128) :=
   match l with [] => Ok [] | a :: l' => do v <- evalv s a ;; do r <- evalv_list s l' ;; Ok (v :: r) end.
@@ -268,6 +304,7 @@ Fixpoint eval (p : profile) (s : state) (e : expr) : res N :=
       end
   | EMin a b => do x <- eval p s a ;; do y <- eval p s b ;; Ok (N.min x y)
   | ERem a b => do x <- eval p s a ;; do y <- eval p s b ;; if y =? 0 then Panic else Ok (x mod y)
+  | EAddS32 a b => do x <- eval p s a ;; do y <- eval p s b ;; sadd32_chk p x y
   | EVPrim f vs => do xs <- get_vecs s vs ;; match sprim f xs with Some n => Ok n | None => Fault end
   | EFromLe a n =>
       match get s a with
@@ -623,6 +660,14 @@ Section Exec.
               (fix block (b : list stmt) (s : state) : res state :=
                  match b with [] => Ok s | st' :: b' => do s1 <- exec st' s ;; block b' s1 end) body (put s x (VA (firstn n l)))
             else Ok s
+        | _ => Fault
+        end
+    | SStoreLanes a e => do v <- evalv s e ;; Ok (put s a (VA [t64 (fst v); t64 (snd v)]))
+    | SLetTake x a n =>
+        match get s a with
+        | Some (VA l) =>
+            if (List.length l <? n)%nat then (if dbg p then Panic else Fault)      (* debug_assert / undefined behaviour *)
+            else Ok (put s x (VA (firstn n l)))
         | _ => Fault
         end
     | SCallWith dst f args fmap =>
